@@ -650,6 +650,17 @@ class Robust:
             A(out, "json-esc", L("op", "j", ty, hexs(tx)))
             for m in json_name_escapes(tx):
                 A(out, "json-esc", L("op", "j", ty, hexs(m)))
+        # ---------- a NEWER revision of a loaded module that is rejected after the revision comparison (namespace of another loaded
+        # module with the same revision): the latest-revision flags / lookups of the context must be what they were ----------
+        for ns, rev in ((b"urn:ietf:params:xml:ns:yang:ietf-yang-types", b"2013-07-15"), (b"urn:ietf:params:xml:ns:yang:ietf-inet-types", b"2013-07-15"),
+                        (b"urn:ietf:params:xml:ns:yang:ietf-yang-metadata", b"2016-08-05"), (b"urn:ietf:params:xml:ns:yang:ietf-datastores", b"2018-02-14"),
+                        (b"urn:ietf:params:xml:ns:yang:ietf-yang-library", b"2019-01-04")):
+            for nm in (b"rb", b"ietf-yang-metadata", b"ietf-inet-types"):
+                for rv in (rev,):
+                    y = b"module " + nm + b" {namespace \"" + ns + b"\"; prefix p; revision " + rv + b";}"
+                    A(out, "latest-flag", L("yang", hexs(y)))
+                    A(out, "latest-flag", L("yin", hexs(b'<module name="' + nm + b'" xmlns="urn:ietf:params:xml:ns:yang:yin:1"><namespace uri="' + ns +
+                                                         b'"/><prefix value="p"/><revision date="' + rv + b'"/></module>')))
         # ---------- failing XPath / path calls of every kind: the next unrelated error must not carry anything of them ----------
         badxp = [b"re-match(/rb:top/rb:name, '(x[0-9]')", b"/rb:top/rb:tag[re-match(., '[a')]", b"re-match(., '\\p{IsNope}')", b"/rb:top/rb:item[re-match(rb:val, ')')]/rb:id",
                  b"nofunc(1)", b"count()", b"count(1, 2)", b"/nope:top", b"/rb:top/rb:item[nope:id=1]", b"deref(1)", b"derived-from(/rb:types/rb:idref, 'nope:x')",
